@@ -4,6 +4,7 @@ package main
 
 import (
 	"math"
+	"math/big"
 	"sort"
 	"strconv"
 	"strings"
@@ -1007,6 +1008,17 @@ func nearValue(r *RNG, leaf *Node, idc *int) *AV {
 			}
 			return avStr(strings.Join(parts, ".") + pick(r, semverSuffix))
 		case 5:
+			if r.Chance(1, 3) {
+				// one numeric component of the literal plus 2^64: a parser that accumulates digits in a uint64 without an
+				// overflow check reads it as the literal itself
+				i := r.Intn(3)
+				if n, ok := new(big.Int).SetString(strings.SplitN(parts[i], "-", 2)[0], 10); ok && len(parts) == 3 && !strings.ContainsAny(parts[i], "-+") {
+					n.Add(n, new(big.Int).Lsh(big.NewInt(1), 64))
+					q := append([]string(nil), parts...)
+					q[i] = n.String()
+					return avStr(strings.Join(q, "."))
+				}
+			}
 			return avStr(pick(r, semverNear))
 		case 6:
 			return avStr(pick(r, verPool) + pick(r, semverSuffix))
@@ -1147,6 +1159,14 @@ func addDecoys(r *RNG, obj *AV, paths [][]string, val func() *AV, protect ...[]s
 			}
 			cur, lvl = nx, lvl+1
 		}
+		if cur.Nil && lvl > 0 {
+			// the walk ends in a nil map of the object type (a non-nil interface holding a nil map: every lookup in it is
+			// absent): a walk that confuses "nil" with "start at the top" would look the key up in the root
+			if r.Chance(2, 3) {
+				putAt(obj, 0, p[lvl], val())
+			}
+			continue
+		}
 		if nx := cur.Get(p[lvl]); lvl < len(p)-1 && (nx == nil || nx.K == AVNull) {
 			// the walk breaks off before the last step. What a walk that loses its place might look at next:
 			// the REST of the path from the top of the object ...
@@ -1266,7 +1286,21 @@ func genObject(r *RNG, root *Node, opt ObjOpts) *AV {
 				cur = nx
 			}
 			if ok && cur.Get(p[cut]) == nil && r.Chance(1, 2) {
-				cur.Set(p[cut], avNull())
+				if r.Chance(1, 4) {
+					cur.Set(p[cut], &AV{K: AVObj, Nil: true}) // a nil map[string]interface{}: present, an object, holds nothing
+					// ... and, now and then, the key that is looked up in it sits at the top of the object (inert: no path starts with it)
+					k, free := p[cut+1], true
+					for _, l2 := range leaves {
+						if l2.Path[0] == k {
+							free = false
+						}
+					}
+					if free && obj.Get(k) == nil && r.Chance(2, 3) {
+						obj.Set(k, nearValue(r, lf, &idc))
+					}
+				} else {
+					cur.Set(p[cut], avNull())
+				}
 			}
 			continue
 		case roll < opt.AbsentPct+opt.NullParent+opt.NonObjMid && len(p) > 1:
